@@ -622,6 +622,53 @@ def tie_C05_jitter(ctx):
             ctx.fail("projection", f"JitterRng: op #{k} `{ops[k]}` (after {ops[:k]}) is not the documented projection of the stream of collected values",
                      c, expected=exp[k][:80], actual=act[k][:80])
 
+def tie_C05_jitter_interrupted(ctx):
+    """a call is interrupted by the timer closure unwinding mid-collection (scripted timer runs dry; the harness catches it),
+    the timer is replenished and the history continues: subject and twin share the timer script and the interrupted call; then
+    the subject's [u32, u32] / [fill k] must be the projections of the word the twin's next_u64 returns"""
+    rng = ctx.rng
+    cases, meta = [], []
+    for i in range(ctx.scale(60, 600)):
+        r = rng.choice([1, 2, 3])
+        fresh_reads = 1 + 3 * (1 + r)
+        pre = rng.choice([[], ["u64"], ["u32", "u32"], ["u32"]])
+        npre = 0 if not pre else 1
+        first = good_readings(rng, npre * fresh_reads)
+        cut = rng.choice([0, 1, 2, 3, rng.randrange(0, fresh_reads)])
+        more = [(first[-1] if first else 1 << 30) + 1000 + 77 * k * k for k in range(cut)]
+        rest = rd_hex(good_readings(rng, 5 * fresh_reads + 8))
+        x = rng.choice(["u32", "u32", "u64", "fill 3", "fill 8", "fill 5"])
+        if pre == ["u32"] and x in ("u32", "fill 3"):
+            x = "u64"               # with a half pending these do not collect at all
+        after = rng.choice([["u32", "u32"], ["u32", "u32", "u32"], ["fill 4", "u32"], ["fill 3", "u64"], ["u32", "fill 2", "u32"]])
+        hx = rd_hex(first + more)
+        c = [f"timer 0 {hx}", "jit 1 0", f"rounds 1 {r}", f"timer 2 {hx}", "jit 3 2", f"rounds 3 {r}"]
+        c += op_lines(1, pre + [x]) + op_lines(3, pre + [x]) + [f"tappend 0 {rest}", f"tappend 2 {rest}"]
+        a0 = len(c)
+        c += op_lines(1, after)
+        ts = len(c)
+        c += ["u64 3"] * 4
+        cases.append(c); meta.append((pre, x, after, a0, ts))
+        ctx.dist["jitter-interrupted:" + x.split()[0]] += 1
+    outs = ctx.real("projection(JitterRng) after a call that was interrupted by the timer unwinding: subject vs next_u64-only twin", cases)
+    pcases, keep = [], []
+    for (pre, x, after, a0, ts), c, o in zip(meta, cases, outs):
+        xi = 6 + len(pre)
+        if o[xi] != "blocked" or o[xi + len(pre) + 1] != "blocked" or "blocked" in o[a0:] or "panic" in o:
+            continue
+        pcases.append([f"proj jitter {','.join(o[ts:])} " + " ".join(proj_tokens(after))]); keep.append((pre, x, after, a0, ts, c, o))
+    pouts = run_chunks(DRIVER, pcases, chunk=200) if pcases else []
+    for (pre, x, after, a0, ts, c, o), po in zip(keep, pouts):
+        vals = po[0].split(" | ")[0]
+        exp = vals.split(" ") if vals else []
+        act = o[a0:a0 + len(after)]
+        ctx.traces_validated += 1
+        if exp != act:
+            k = next((i for i, (p_, q_) in enumerate(zip(exp, act)) if p_ != q_), 0)
+            ctx.fail("projection", f"JitterRng: after `{x}` was interrupted by the timer unwinding (caught by the caller), op #{k} `{after[k]}` is not the "
+                     f"documented projection of the stream of collected values (a twin that suffered the same interruption and then only calls next_u64)",
+                     c, expected=exp[k][:80], actual=act[k][:80])
+
 def jitter_special_words(ctx, wants):
     """timer scripts (rounds = 1, fresh pool) whose first collected 64-bit value satisfies a linear condition — high half
     zero, low half zero, both halves equal … — found by solving over GF(2): for non-stuck measurements the collected
@@ -733,6 +780,7 @@ def tie_C05_all(ctx):
     tie_C05(ctx)
     tie_C05_jitter(ctx)
     tie_C05_jitter_special(ctx)
+    tie_C05_jitter_interrupted(ctx)
 
 PROPS = {
     "C01": dict(tie=tie_C01, absolute=True),
@@ -1301,13 +1349,32 @@ def tie_C10(ctx):
         k = rng.randrange(1, 15)
         c = [f"new 0 Hc128Rng seed {seed.hex()}"] + ["u32 0"] * k + ["clone 1 0", "u32 1", "eq 0 1", "u32 0", "eq 0 1"]
         cases.append(c); meta.append(("Hc128Rng", 9, len(c) - 3))
+    # pairs that differ in exactly ONE component of what == looks at: other seed at the same position, same seed a whole number
+    # of blocks apart (same index, other core), same core other index (above)
+    for g in REAL_EQ:
+        info = GENS[g]
+        for _ in range(ctx.scale(6, 60)):
+            s1, s2 = rand_bytes(rng, info["seed"]), rand_bytes(rng, info["seed"])
+            k = rng.randrange(0, 20)
+            nat = native(g)
+            c = [f"new 0 {g} seed {s1.hex()}", f"new 1 {g} seed {s2.hex()}"] + [f"{nat} 0", f"{nat} 1"] * k + ["eq 0 1"]
+            cases.append(c); meta.append((g, 9, len(c) - 1))
+            if "blk" in info:
+                c = [f"new 0 {g} seed {s1.hex()}", "clone 1 0"] + [f"{nat} 0", f"{nat} 1"] * k + [f"fill 1 {info['blk'] * info['w'] // 8}", "eq 0 1"]
+                cases.append(c); meta.append((g, 9, len(c) - 1))
     # C10 is about clone / == and equality of the two futures of the REAL generators; values belong to C01-C05
     h = ctx.real("clone / == pairs with identical continuations (real vs real)", cases)
     ctx.traces_validated += len(cases)
     for (g, kind, eq_at), c, o in zip(meta, cases, h):
+        inc = next((i for i, v in enumerate(o) if v.startswith("inconsistent")), None)
+        if inc is not None:
+            # the harness evaluates the whole PartialEq surface: a == b, a != b, b == a, b != a, &a != &b
+            ctx.fail("eq-surface", f"{g}: `!=` / `==` of the generator type contradict each other (PartialEq::ne or asymmetric eq): neither "
+                     f"`a == b` nor `a != b` tells whether the futures coincide", c, expected="a != b is !(a == b), symmetric", actual=o[inc])
+            continue
         if kind == 9:
             if o[eq_at] != "false":
-                ctx.fail("eq-index", "two Hc128Rng at different read positions of the same block compare equal", c,
+                ctx.fail("eq-index", f"two {g} that differ in seed, block or read position compare equal", c,
                          expected="false", actual=o[eq_at])
             continue
         e0 = o[eq_at]
@@ -2268,13 +2335,47 @@ def tie_C16(ctx):
              f"tappend 0 {rd_hex(rest)}", "u32 1", "calls 0"]
         cases.append(c); meta.append((6, r))
         ctx.dist["timer-unwinds-mid-collection"] += 1
+    # … and the interrupted call is itself a next_u32 (or a fill of 1..4 bytes) with NO half pending — optionally after complete
+    # calls, so that an already handed-out value sits in the pool: whatever the unwound call left behind, the next next_u32 must
+    # come from a fresh collection, and the one after it must be the high half of that same value without a timer read
+    for i in range(ctx.scale(40, 300)):
+        r = rng.choice([1, 2, 3])
+        fresh_reads = 1 + 3 * (1 + r)
+        pre_ops = rng.choice([[], ["u64 1"], ["u32 1", "u32 1"], ["u64 1", "u64 1"], ["fill 1 8"]])
+        npre = sum(2 if o == "u32 1" else 2 for o in pre_ops) // 2 if pre_ops else 0
+        npre = {0: 0, 1: 1, 2: 1 if pre_ops and pre_ops[0] == "u32 1" else 2}[len(pre_ops)]
+        first = good_readings(rng, npre * fresh_reads)
+        cut = rng.choice([0, 0, 1, 2, 3, rng.randrange(0, fresh_reads)])       # readings available to the interrupted call
+        more = [first[-1] + 1000 + 77 * k * k for k in range(cut)] if first else good_readings(rng, cut)
+        rest = good_readings(rng, 4 * fresh_reads + 8)
+        x = rng.choice(["u32 1", "u32 1", "fill 1 3", "fill 1 4", "fill 1 1"])
+        c = [f"timer 0 {rd_hex(first + more)}", "jit 1 0", f"rounds 1 {r}"] + pre_ops + ["calls 0", x, "calls 0",
+             f"tappend 0 {rd_hex(rest)}", "u32 1", "calls 0", "u32 1", "calls 0"]
+        cases.append(c); meta.append((7, (r, len(pre_ops))))
+        ctx.dist["timer-unwinds-inside-next_u32"] += 1
     # real-vs-real (twin on an identical timer); the Jitter model itself is tied to the code by C12's absolute tie
     h = ctx.real("JitterRng halves, fresh collections, clones: twins on identical timer scripts with call counts", cases)
     ctx.traces_validated += len(cases)
     for (shape, r), c, o in zip(meta, cases, h):
         b = o[6:]
+        if shape == 7:
+            r, npre = r
         fresh = 1 + 3 * (1 + r)
-        if "blocked" in o and shape != 6:
+        if "blocked" in o and shape not in (6, 7):
+            continue
+        if shape == 7:
+            k = 3 + npre            # index of the first `calls`
+            # o[k]: calls, o[k+1]: X (blocked), o[k+2]: calls, o[k+3]: tappend, o[k+4]: u32, o[k+5]: calls, o[k+6]: u32, o[k+7]: calls
+            if len(o) < k + 8 or o[k + 1] != "blocked" or o[k + 3] != "ok" or o[k + 4] in ("blocked", "panic") or o[k + 6] in ("blocked", "panic"):
+                continue
+            c2, c3, c4 = int(o[k + 2]), int(o[k + 5]), int(o[k + 7])
+            if c3 - c2 < fresh:
+                ctx.fail("discard", f"after `{c[k + 1]}` (no half pending) was interrupted by the timer unwinding (caught by the caller), the next "
+                         f"next_u32 did not start a fresh collection ({c3 - c2} timer readings, need >= {fresh}): it handed out bits of a "
+                         f"value that was never completed / was already handed out", c, expected="fresh collection", actual=o[k + 4])
+            elif c4 != c3:
+                ctx.fail("halves", "after an interrupted call and a fresh next_u32, the following next_u32 read the timer instead of returning "
+                         "the pending high half", c, expected=str(c3), actual=str(c4))
             continue
         if shape == 6:
             # o: timer, jit, rounds, u32, calls, X(blocked), calls, tappend, u32, calls
